@@ -200,7 +200,7 @@ Record tstate := {
   t_exlvl : N;              (* execution_recursion_detector._recursion_level *)
   t_exstk : list N;         (* execution_recursion_detector._parent_execution_funcs (top first) *)
   t_excount : N;            (* ..._execution_count: grows during a query, reset by the next one *)
-  t_pre : list (N * N);     (* (context, flow scope) keys present in some predefined_names *)
+  t_pre : list (N * N);     (* (context, flow scope) keys present in some predefined_names (a map: no duplicates) *)
   t_dyn : N;                (* inference_state.dynamic_params_depth *)
   t_memo : list (N * (bool * bool * bool))
                             (* memoize_cache: key |-> (the entry is the recursion default,
@@ -232,6 +232,8 @@ Definition upd_memo m s := {| t_flow := t_flow s; t_ana := t_ana s; t_rec := t_r
   t_exstk := t_exstk s; t_excount := t_excount s; t_pre := t_pre s; t_dyn := t_dyn s; t_memo := m |}.
 
 Definition key2_eqb (a b : N * N) : bool := N.eqb (fst a) (fst b) && N.eqb (snd a) (snd b).
+Fixpoint mem_k2 (k : N * N) (l : list (N * N)) : bool :=
+  match l with [] => false | x :: r => key2_eqb k x || mem_k2 k r end.
 Fixpoint remove_first (k : N * N) (l : list (N * N)) : list (N * N) :=
   match l with [] => [] | x :: r => if key2_eqb k x then r else x :: remove_first k r end.
 Definition mentry := (bool * bool * bool)%type.
@@ -254,7 +256,7 @@ Inductive event :=
 | EAna (b : bool)
 | ERecPush (n : N) | ERecPop   (* pushed_nodes.append / .pop *)
 | EExPush (f : N) | EExPop     (* push_execution / pop_execution *)
-| EPreSet (c k : N) | EPreDel (c k : N)   (* predefined[flow_scope] = dct / del predefined[flow_scope] *)
+| EPreSet (c k : N) | EPreDel (c k : N)   (* predefined[flow_scope] = ... / predefined.pop(flow_scope) *)
 | EDynInc | EDynDec
 | EMemo (k : N) (is_default : bool).
 
@@ -267,7 +269,7 @@ Definition step (s : tstate) (e : event) : tstate :=
   | ERecPop => upd_rec (tl (t_rec s)) s
   | EExPush f => upd_ex (N.succ (t_exlvl s)) (f :: t_exstk s) (N.succ (t_excount s)) s
   | EExPop => upd_ex (N.pred (t_exlvl s)) (tl (t_exstk s)) (t_excount s) s
-  | EPreSet c k => upd_pre ((c, k) :: t_pre s) s
+  | EPreSet c k => if mem_k2 (c, k) (t_pre s) then s else upd_pre ((c, k) :: t_pre s) s
   | EPreDel c k => upd_pre (remove_first (c, k) (t_pre s)) s
   | EDynInc => upd_dyn (N.succ (t_dyn s)) s
   | EDynDec => upd_dyn (N.pred (t_dyn s)) s
@@ -288,7 +290,8 @@ Inductive op :=
 | ORec (n : N) (b : op)          (* execution_allowed(node): already pushed -> b is skipped;
                                     else try: push; b  finally: pop *)
 | OExec (f : N) (b : op)         (* execution_recursion_decorator: push; try: b  finally: pop *)
-| OPredef (c k : N) (b : op)     (* predefine_names *)
+| OPredef (c k : N) (b : op)     (* predefine_names: previous := predefined.get(k); predefined[k] := dct;
+                                    try: b  finally: pop k if previous is None else predefined[k] := previous *)
 | ODyn (b : op)                  (* dynamic_params: depth += 1; try: b  finally: depth -= 1 *)
 | OMemo (k : N) (b : op).        (* _memoize_default(default=..): if k in memo: return memo[k]
                                     else memo[k] := default; b; memo[k] := rv        (no try/finally) *)
@@ -320,8 +323,9 @@ Fixpoint exec (o : op) (s : tstate) : tstate * bool * list event :=
       let '(s1, r1, t1) := exec b (step s (EExPush f)) in
       (step s1 EExPop, r1, EExPush f :: t1 ++ [EExPop])
   | OPredef c k b =>
+      let fin := if mem_k2 (c, k) (t_pre s) then EPreSet c k else EPreDel c k in
       let '(s1, r1, t1) := exec b (step s (EPreSet c k)) in
-      (step s1 (EPreDel c k), r1, EPreSet c k :: t1 ++ [EPreDel c k])
+      (step s1 fin, r1, EPreSet c k :: t1 ++ [fin])
   | ODyn b =>
       let '(s1, r1, t1) := exec b (step s EDynInc) in
       (step s1 EDynDec, r1, EDynInc :: t1 ++ [EDynDec])
